@@ -7,8 +7,10 @@ import Hyeong.Model.Debug
 
 The file system and the UTF-8 decoder are Rust std: the model receives their verdicts
 (`ext_ok`: the path has the `.hyeong` extension; `src`: the decoded text, or `none` when the file
-cannot be opened / is not UTF-8).  Standard input is given as decoded text (valid UTF-8); undecodable
-input ends the run with a diagnostic the first time the program reads it (covered by the tie).
+cannot be opened / is not UTF-8).  Standard input: `cliRun` takes decoded text (valid UTF-8); `cliRunBytes`
+takes any bytes, cut into lines after every `0A` as `read_line` does, each line decoded separately — a line
+that is not UTF-8 becomes the empty list, which `popWrap` turns into the input-error stop the first time the
+program reads it (`main` prints the diagnostic, status 1).
 -/
 namespace HyE
 open HyP
@@ -63,8 +65,63 @@ def finishRun (pre : List Char) (r : Option (Res (List Cmd × M N))) : Option Cl
   | some (.error (.exit c, w)) => some ⟨pre ++ w.out, w.err, false, c⟩
   | some (.error (_, w)) => some ⟨pre ++ w.out, w.err, true, 1⟩
 
-/-- `hyeong run -O<level> FILE` with `stdin`; `none` = still running when the fuel is used up -/
-def cliRun (budget fuel level : Nat) (path : List Char) (extOk : Bool) (src : Option (List Char)) (stdin : List Char) :
+/-! ### standard input as bytes -/
+
+/-- one character off the front of a byte string, strictly (what `String::from_utf8` accepts): shortest form
+only, no surrogates, at most U+10FFFF -/
+def decodeOne (bs : List UInt8) : Option (Char × List UInt8) :=
+  let cont (b : UInt8) : Bool := 0x80 ≤ b && b ≤ 0xBF
+  let low (b : UInt8) : Nat := b.toNat % 64
+  match bs with
+  | [] => none
+  | b0 :: rest =>
+    if b0 < 0x80 then some (Char.ofNat b0.toNat, rest)
+    else if 0xC2 ≤ b0 && b0 ≤ 0xDF then
+      match rest with
+      | b1 :: r => if cont b1 then some (Char.ofNat ((b0.toNat % 32) * 64 + low b1), r) else none
+      | _ => none
+    else if 0xE0 ≤ b0 && b0 ≤ 0xEF then
+      match rest with
+      | b1 :: b2 :: r =>
+        let n := (b0.toNat % 16) * 4096 + low b1 * 64 + low b2
+        if cont b1 && cont b2 && 0x800 ≤ n && !(0xD800 ≤ n && n ≤ 0xDFFF) then some (Char.ofNat n, r) else none
+      | _ => none
+    else if 0xF0 ≤ b0 && b0 ≤ 0xF4 then
+      match rest with
+      | b1 :: b2 :: b3 :: r =>
+        let n := (b0.toNat % 8) * 262144 + low b1 * 4096 + low b2 * 64 + low b3
+        if cont b1 && cont b2 && cont b3 && 0x10000 ≤ n && n ≤ 0x10FFFF then some (Char.ofNat n, r) else none
+      | _ => none
+    else none
+
+/-- at most `fuel` characters -/
+def utf8DecodeF : Nat → List UInt8 → Option (List Char)
+  | _, [] => some []
+  | 0, _ :: _ => none
+  | f+1, b :: bs =>
+    match decodeOne (b :: bs) with
+    | none => none
+    | some (c, rest) => (utf8DecodeF f rest).map (c :: ·)
+
+/-- strict UTF-8 decoding of a whole byte string (every character takes at least one byte) -/
+def utf8Decode (bs : List UInt8) : Option (List Char) := utf8DecodeF bs.length bs
+
+/-- the byte lines `read_line` sees: cut after every `0A`; a last line without terminator is kept -/
+def splitByteLines : List UInt8 → List (List UInt8)
+  | [] => []
+  | b :: rest =>
+    if b = 0x0A then [b] :: splitByteLines rest
+    else match splitByteLines rest with
+      | [] => [[b]]
+      | l :: ls => (b :: l) :: ls
+
+/-- standard input as the interpreter model takes it: one entry per line, `[]` for a line that is not UTF-8 -/
+def decodeLines (bytes : List UInt8) : List (List Char) :=
+  (splitByteLines bytes).map fun l => (utf8Decode l).getD []
+
+/-- `hyeong run -O<level> FILE` with the lines of standard input (`[]` = a line that is not UTF-8);
+`none` = still running when the fuel is used up -/
+def cliRunLines (budget fuel level : Nat) (path : List Char) (extOk : Bool) (src : Option (List Char)) (lines : List (List Char)) :
     Option CliOut :=
   if !extOk then some ⟨[], [], true, 1⟩
   else match src with
@@ -72,7 +129,7 @@ def cliRun (budget fuel level : Nat) (path : List Char) (extOk : Bool) (src : Op
     | some s =>
       let code := (HyP.parse s).map Cmd.ofParsed
       let log0 := logLine ("parsing ".toList ++ path)
-      let w0 : World := ⟨splitLines stdin, [], []⟩
+      let w0 : World := ⟨lines, [], []⟩
       if level = 0 then
         finishRun (N := N) (log0 ++ logLine "running code".toList) (executeAll fuel [] (St.init, w0) code)
       else
@@ -83,5 +140,15 @@ def cliRun (budget fuel level : Nat) (path : List Char) (extOk : Bool) (src : Op
           -- the captured text is delivered first, then the remaining commands are executed
           finishRun (log1 ++ logLine "running code".toList)
             (executeAll fuel (oc.take r.idx) r.m (oc.drop r.idx))
+
+/-- … with decoded text on standard input -/
+def cliRun (budget fuel level : Nat) (path : List Char) (extOk : Bool) (src : Option (List Char)) (stdin : List Char) :
+    Option CliOut :=
+  cliRunLines (N := N) budget fuel level path extOk src (splitLines stdin)
+
+/-- … with any bytes on standard input -/
+def cliRunBytes (budget fuel level : Nat) (path : List Char) (extOk : Bool) (src : Option (List Char)) (stdin : List UInt8) :
+    Option CliOut :=
+  cliRunLines (N := N) budget fuel level path extOk src (decodeLines stdin)
 
 end HyE
